@@ -213,7 +213,11 @@ func checkC19(t *testing.T, rq *Request, rec *Recorder) []Diff {
 					wantKind = "tcp-ack"
 				}
 				if probes[0].Kind != wantKind {
-					add("wrong-method", "traceroute run used %s probes for method %q", probes[0].Kind, p.TCPMethod)
+					if att, del := handshakesDelivered(o.Wire); p.TCPMethod == "prefer_sack" && att > del {
+						labels = append(labels, "handshake-not-delivered(not asserted)")
+					} else {
+						add("wrong-method", "traceroute run used %s probes for method %q", probes[0].Kind, p.TCPMethod)
+					}
 				}
 			}
 		case isSingle:
